@@ -87,6 +87,24 @@ func structuralPhase(c *Ctx, d *ref.Decl, idx *int) {
 			c.Note(fmt.Sprintf("structural size<=%d over %d leaves", t.size, len(t.leaves)), fmt.Sprintf("%d specs: compiled automaton vs partial-derivative automaton, product BFS, words of unbounded length", ns))
 		}
 	}
+	depth := 2
+	if c.Thorough() {
+		depth = 3
+	}
+	towers := towerSpecs(towerPairs, depth)
+	for _, spec := range towers {
+		*idx++
+		if !c.Mine(*idx) {
+			continue
+		}
+		if !c.Begin("structural", spec) {
+			continue
+		}
+		structuralOne(c, d, spec)
+	}
+	if c.Shard == 0 {
+		c.Note("structural operator towers", fmt.Sprintf("%d specs W3(W1(a) op W2(b)), W any stack of <= %d of { [s], (s)..., [s]... }, leaf pairs %q", len(towers), depth, towerPairs))
+	}
 }
 
 func structuralOne(c *Ctx, d *ref.Decl, spec string) {
